@@ -145,7 +145,7 @@ func tinyPods(r *rand.Rand, n int, lvs []api.LevelVersion) []*corev1.Pod {
 func Src(seed int64, n int, pf string) (*cq.Set, *cq.Interner) {
 	r := rand.New(rand.NewSource(seed))
 	in := cq.NewInterner()
-	set := &cq.Set{Stream: "src", Seed: seed, Imports: "Model.Api Model.Pod Model.Checks Model.Admission Model.Sources Corr.Adm Corr.Src", CaseTy: "src_case", RunFn: "run_src " + pf,
+	set := &cq.Set{Stream: "src", Seed: seed, Imports: "Model.Api Model.Pod Model.Checks Model.Admission Model.Wire Model.Sources Corr.Adm Corr.Src", CaseTy: "src_case", RunFn: "run_src " + pf,
 		Rule: "histories of 20 requests through one long-lived Admission wired to the real NamespaceGetterFromClient / NamespaceGetterFromListerAndClient and PodListerFromClient / PodListerFromInformer over a stub API server (GET namespace, LIST pods with limit/continue) and hand-fed informer caches; before every request the caches and the server are set to a fresh state for the request's namespace (cached only, live only, both with different labels, neither, live GET failing, LIST failing, a later LIST page failing, live lists of more than 500 pods); the same request is also answered by a second rig built from scratch on that state; distinct by (wiring, state, request); non-trivial = at least one dependency call"}
 	histories := n / 20
 	if histories < 1 {
